@@ -146,7 +146,15 @@ def td : P String := do
     let (m1, m1C, coin, a1) :=
       if isDQ then dqPick e.γ e.α S A prev prevC e out outC
       else (toRows S A (stepTD L e.γ A (πOf prev) qp e), [], true, 0)
-    let bad := !(closeRows tolStep m1 out) || (isDQ && !(closeRows tolStep m1C outC))
+    -- policy-object runs start from tables with entries ~2^21: the expectation is rounded at that magnitude (absolute ~1e-10) and
+    -- lands in an entry of magnitude ~1, so the comparison is scaled by the largest magnitude in the table
+    -- (and in the table BEFORE the step: with α = 1 the new entry is `q + (target − q)`, rounded at the magnitude of the old q)
+    let scAll := 1 + maxAbsRows prev + maxAbsRows out
+    let cmp := fun (tol : Rat) (x y : Rows) =>
+      if L == "esarsap" then
+        x.length == y.length && (x.zip y).all (fun (u, w) => u.length == w.length && (u.zip w).all (fun (p, q) => decide (absQ (p - q) ≤ tol * scAll)))
+      else closeRows tol x y
+    let bad := !(cmp tolStep m1 out) || (isDQ && !(closeRows tolStep m1C outC))
     v := v.diffIf bad s!"{comp} step {k} from-impl-state model={showRows m1} impl={showRows out}"
     if eqRows m1 out && (!isDQ || eqRows m1C outC) then exact := exact + 1
     -- pure model trajectory
@@ -155,7 +163,7 @@ def td : P String := do
         let d := dqStepAt e.γ e.α ⟨ofRows mdl, ofRows mdlC⟩ coin a1 e.s e.a e.s1 e.r
         (toRows S A d.qa, toRows S A d.qc)
       else (toRows S A (stepTD L e.γ A (πOf mdl) (ofRows mdl) e), [])
-    v := v.diffIf (!(closeRows tolRun mm out) || (isDQ && !(closeRows tolRun mmC outC)))
+    v := v.diffIf (!(cmp tolRun mm out) || (isDQ && !(closeRows tolRun mmC outC)))
       s!"{comp} step {k} trajectory model={showRows mm} impl={showRows out}"
     -- (L3) clause 1: bounds on the implementation's own tables
     let okEv := decide (rmin ≤ e.r) && decide (e.r ≤ rmax) && decide (0 < e.α) && decide (e.α ≤ 1) && decide (0 ≤ e.β) && decide (e.β ≤ 1)
